@@ -25,6 +25,8 @@ var DBL_EPSILON float64 = math.Nextafter(1, 2) - 1
 
 type ProtModel struct {
 	pi         []float64  // aa frequency
+	tablepi    []float64  // aa frequency of the model, as published
+	exch       *mat.Dense // exchangeabilities of the model, as published
 	mat        *mat.Dense // substitution matrix
 	mr         float64    //MeanRate
 	eigen      *mat.Eigen // Eigen Values/vectors
@@ -61,7 +63,9 @@ func NewProtModel(model int, usegamma bool, alpha float64) (*ProtModel, error) {
 	}
 	return &ProtModel{
 		pi,
+		pi,
 		m,
+		nil,
 		-1.0,
 		nil,
 		nil,
@@ -105,13 +109,15 @@ func (model *ProtModel) InitModel(aafreqs []float64) error {
 
 	ns := 20
 
-	if model.mat == nil || model.pi == nil {
+	if model.exch == nil || model.tablepi == nil {
 		return fmt.Errorf("matrices have not been initialized")
 	}
 
 	if aafreqs != nil && len(aafreqs) != ns {
 		return fmt.Errorf("aa frequency array does not have a length of 20")
 	}
+	/* always start from the published tables: the model may be initialized several times */
+	model.pi = model.tablepi
 	if aafreqs != nil {
 		model.pi = aafreqs
 	}
@@ -128,7 +134,8 @@ func (model *ProtModel) InitModel(aafreqs []float64) error {
 	model.pi = pi
 
 	/* multiply the nth col of Q by the nth term of pi/100 just as in PAML */
-	model.mat.Apply(func(i, j int, v float64) float64 { return v * model.pi[j] / 100.0 }, model.mat)
+	model.mat = mat.NewDense(ns, ns, nil)
+	model.mat.Apply(func(i, j int, v float64) float64 { return v * model.pi[j] / 100.0 }, model.exch)
 
 	/* compute diagonal terms of Q and mean rate mr = l/t */
 	model.mr = .0
